@@ -1,6 +1,7 @@
 import ProfiVerif.Driver.Codec
 import ProfiVerif.Driver.PhyRx
 import ProfiVerif.Driver.Gap
+import ProfiVerif.Driver.Gsd
 import ProfiVerif.Driver.Las
 import ProfiVerif.Driver.Diag
 import ProfiVerif.Driver.Apps
@@ -36,6 +37,8 @@ def main (args : List String) : IO UInt32 := do
   | ["oracle", "C17", o, i] => oracleLoop oracleC17 { cap := 0, prev := "last=-" } o i
   | ["oracle", "C02las", o, i] => oracleLoop oracleLas {} o i
   | ["model", "las"] => engineLoop stepLas none inp out; return 0
+  | ["model", "gsd"] => engineLoop (fun (_ : Unit) l => ((), (stepGsd (splitWords l)).getD "bad-op")) () inp out; return 0
+  | ["oracle", "C19", o, i] => oracleLoop (fun (_ : Unit) op obs => ((), oracleC19 op obs)) () o i
   | ["model", "gap"] => engineLoop (fun (_ : Unit) l => ((), stepGap l)) () inp out; return 0
   | ["oracle", "C12gap", o, i] => oracleLoop (fun (_ : Unit) op obs => ((), oracleGap op obs)) () o i
   | ["oracle", "C16", o, i] => oracleLoop oracleC16 {} o i
